@@ -217,13 +217,14 @@ theorem euCycle_ok (app : App) (hall : ∀ i ∈ app.instrs, jInstr app i = true
 theorem wuCycle_ok (s : State) (j : Nat) (before : Word) (hj : j < s.wus.length) (hidle : ∀ wu ∈ s.wus, wu.co = .none)
     (hnm : ∀ ec ∈ s.writeBus.inside, ec.execution.MemoryChange = false) :
     ∃ s', wuCycle s j before = .ok s' ∧ s'.wus = s.wus ∧ s'.mmu = s.mmu ∧
-      (∀ ec ∈ s'.writeBus.inside, ec ∈ s.writeBus.inside) := by
+      (∀ ec ∈ s'.writeBus.inside, ec ∈ s.writeBus.inside) ∧
+      s'.writeBus.buffer = s.writeBus.buffer ∧ s'.writeBus.queue = s.writeBus.queue.tail := by
   obtain ⟨wu, hget⟩ := get_lt s.wus j hj
   have hco := hidle wu (List.mem_of_getElem? hget)
   unfold wuCycle
   simp only [hget, hco]
   cases hq : s.writeBus.queue with
-  | nil => simp only [get_none _ hq]; exact ⟨_, rfl, rfl, rfl, fun _ h => h⟩
+  | nil => simp only [get_none _ hq]; exact ⟨_, rfl, rfl, rfl, (fun _ h => h), rfl, by rw [hq]; rfl⟩
   | cons ec q =>
     simp only [get_some _ ec q hq]
     have hin : s.writeBus.inside = ec :: ({ s.writeBus with queue := q } : BufferedBus ExecCtx).inside := by
@@ -232,11 +233,11 @@ theorem wuCycle_ok (s : State) (j : Nat) (before : Word) (hj : j < s.wus.length)
       intro e he; rw [hin]; exact List.mem_cons_of_mem _ he
     have hmc := hnm ec (by rw [hin]; exact List.mem_cons_self)
     split
-    · exact ⟨_, rfl, rfl, rfl, hsub⟩
+    · exact ⟨_, rfl, rfl, rfl, hsub, rfl, rfl⟩
     · split
-      · exact ⟨_, rfl, rfl, rfl, hsub⟩
+      · exact ⟨_, rfl, rfl, rfl, hsub, rfl, rfl⟩
       · simp only [hmc, Bool.false_eq_true, if_false]
-        exact ⟨_, rfl, rfl, rfl, hsub⟩
+        exact ⟨_, rfl, rfl, rfl, hsub, rfl, rfl⟩
 
 theorem wus_ok (before : Word) : ∀ (n i : Nat) (s : State), i + n = s.wus.length → (∀ wu ∈ s.wus, wu.co = .none) →
     (∀ ec ∈ s.writeBus.inside, ec.execution.MemoryChange = false) →
@@ -246,7 +247,7 @@ theorem wus_ok (before : Word) : ∀ (n i : Nat) (s : State), i + n = s.wus.leng
   | zero => intro i s _ _ _; exact ⟨s, rfl, rfl⟩
   | succ n ih =>
     intro i s hlen hidle hnm
-    obtain ⟨s1, h1, e1, e2, e3⟩ := wuCycle_ok s i before (by omega) hidle hnm
+    obtain ⟨s1, h1, e1, e2, e3, _⟩ := wuCycle_ok s i before (by omega) hidle hnm
     obtain ⟨s2, h2, e4⟩ := ih (i + 1) s1 (by rw [e1]; omega) (by rw [e1]; exact hidle) (fun ec hec => hnm ec (e3 ec hec))
     refine ⟨s2, ?_, e4.trans e2⟩
     simp only [List.range'_succ, List.foldlM, bind, Except.bind, h1]
